@@ -83,6 +83,52 @@ def rigid_modes(pos, ref, dim):
     return R[np.ix_(keep, DOFSEL[dim])]
 
 
+def solve_refined(A, rhs, iters=8, extended=False):
+    """Dense solve with Ruiz equilibration and iterative refinement, residual and solution
+    carried in extended precision (complex256): the result is accurate to a few eps (of
+    double) element-wise relative to max|x| as long as cond(equilibrated A)*eps < 1, so
+    the reference's own round-off (badly scaled saddle-point / mixed modal-physical
+    systems) stays out of the comparison.  Raises LinAlgError when the refinement does not
+    converge (the caller refuses the case)."""
+    from scipy.linalg import lu_factor, lu_solve
+    A = np.asarray(A, complex)
+    rhs = np.asarray(rhs, complex)
+    n = A.shape[0]
+    d1 = np.ones(n)
+    d2 = np.ones(n)
+    As = A.copy()
+    for _ in range(6):
+        rmax = np.sqrt(np.abs(As).max(axis=1))
+        rmax[rmax == 0] = 1.0
+        As = As / rmax[:, None]
+        d1 = d1 / rmax
+        cmax = np.sqrt(np.abs(As).max(axis=0))
+        cmax[cmax == 0] = 1.0
+        As = As / cmax[None, :]
+        d2 = d2 / cmax
+    lu = lu_factor(As)
+    Ae = A.astype(np.clongdouble)
+    be = rhs.astype(np.clongdouble)
+    x = (d2 * lu_solve(lu, d1 * rhs)).astype(np.clongdouble)
+    last = np.inf
+    for _ in range(iters):
+        res = be - Ae @ x
+        dx = d2 * lu_solve(lu, d1 * res.astype(complex))
+        x = x + dx.astype(np.clongdouble)
+        step = float(np.abs(dx).max() / max(float(np.abs(x).max()), 1e-300))
+        if step < 1e-19:
+            break
+        last = step
+    else:
+        if not last < 1e-17:
+            raise np.linalg.LinAlgError("iterative refinement did not converge")
+    return x if extended else x.astype(complex)
+
+
+def _xl(a):
+    return np.asarray(a).astype(np.clongdouble)
+
+
 def dyn(M, B, K, W):
     return -(W ** 2) * M + 1j * W * B + K
 
@@ -115,7 +161,8 @@ def apparent_mass(M, B, K, T, W):
 
 def free_accel(M, B, K, T, W, f):
     Z = dyn(M, B, K, W)
-    return -(W ** 2) * (T @ np.linalg.solve(Z, f))
+    # product in extended precision too: T @ x may cancel by many digits
+    return (-(np.longdouble(W) ** 2) * (_xl(T) @ solve_refined(Z, f, extended=True))).astype(complex)
 
 
 def coupled_dual(S, L, W, fs):
@@ -127,6 +174,9 @@ def coupled_dual(S, L, W, fs):
     Zs, Zl = dyn(Ms, Bs, Ks, W), dyn(Ml, Bl, Kl, W)
     # scale the constraint rows/columns so the saddle-point matrix is reasonably balanced
     sc = max(np.abs(Zs).max(), np.abs(Zl).max())
+    # power of two: scaling T must not round its entries (the solution can be very
+    # sensitive to T when the interface response is a small difference of large terms)
+    sc = float(2.0 ** np.round(np.log2(sc))) if sc > 0 else 1.0
     A = np.zeros((ns + nl + r, ns + nl + r), complex)
     A[:ns, :ns] = Zs
     A[ns:ns + nl, ns:ns + nl] = Zl
@@ -136,10 +186,10 @@ def coupled_dual(S, L, W, fs):
     A[ns + nl:, ns:ns + nl] = -Tl * sc
     rhs = np.zeros(ns + nl + r, complex)
     rhs[:ns] = fs
-    x = np.linalg.solve(A, rhs)
+    x = solve_refined(A, rhs, extended=True)
     xs = x[:ns]
-    lam = x[ns + nl:] * sc
-    return -(W ** 2) * (Ts @ xs), lam
+    lam = (x[ns + nl:] * np.longdouble(sc)).astype(complex)
+    return (-(np.longdouble(W) ** 2) * (_xl(Ts) @ xs)).astype(complex), lam
 
 
 def coupled_primal(S, L, bs, bl, W, fs):
@@ -161,11 +211,11 @@ def coupled_primal(S, L, bs, bl, W, fs):
     Ll[ol, os_.size + r + np.arange(ol.size)] = 1
     Zs, Zl = dyn(Ms, Bs, Ks, W), dyn(Ml, Bl, Kl, W)
     Z = Ls.T @ Zs @ Ls + Ll.T @ Zl @ Ll
-    x = np.linalg.solve(Z, Ls.T @ fs)
-    xl = Ll @ x
+    x = solve_refined(Z, Ls.T @ fs, extended=True)
+    xl = _xl(Ll) @ x
     xb = x[os_.size:os_.size + r]
-    F = (Zl @ xl)[np.asarray(bl)]
-    return -(W ** 2) * xb, F
+    F = (_xl(Zl) @ xl)[np.asarray(bl)].astype(complex)
+    return (-(np.longdouble(W) ** 2) * xb).astype(complex), F
 
 
 def cb_reduce(M, B, K, bset):
